@@ -218,7 +218,7 @@ def run(rec, tier, seed):
         amps, nl = [1.0, -3.7], 5
     else:
         widths = {'gauss': [0.5, 0.75, 1.0, 2.0, 3.0], 'yukawa': [0.5, 1.0, 2.0, 3.0], 'expo': [0.7, 1.0, 2.0], 'sphere': [1.03, 2.57, 4.11]}
-        amps, nl = [1.0, -3.7], 7
+        amps, nl = [1.0, -3.7, 0.02], 8
     cases = []
     for fam in widths:
         for w, A in itertools.product(widths[fam], amps):
